@@ -1,4 +1,5 @@
-(* C20 — proofs, part B: extension ids, PEX, read suspension on the connection/download model. *)
+(* C20 — proofs, part B: reads_resume as an invariant of the event-level model (all_fixes),
+   refutations for the code as it is (current_fixes). *)
 From Coq Require Import NArith ZArith List Bool Lia.
 From Coq Require Import ZifyBool ZifyNat ZifyN.
 From LTV.C20 Require Import ParamsGen Model.
@@ -6,261 +7,184 @@ Import ListNotations.
 Open Scope N_scope.
 
 Definition small_meta : list N := [100; 49; 58; 120; 101].
-
 Definition hs_of (x m p : option Z) : hs := mkHs x m p None.
 
+Definition is_some {A} (o : option A) : bool := match o with Some _ => true | None => false end.
+Definition up_some (u : upstate) : bool := match u with UMsg (Some _) => true | _ => false end.
+
 (* ------------------------------------------------------------------------------------------ *)
-(* parse_handshake: the id map follows the handshake, truncated to 8 bits; absent keys keep it *)
+(* The reads_resume invariant of one connection.
+     - out of the read set                      => a complete message waits (blocked)
+     - a complete message waits                 => a reply is pending or in flight
+     - a reply is pending / a message in flight => the connection is in the write set
+     - complete messages in the protocol buffer => a message waits in front of them
+     - read state READ_EXTENSION                => a message waits
+     - a reply is pending                       => the peer's ut_metadata id is not 0            *)
+Definition okio (idm0 : bool) (i : iostate) : bool :=
+  let blocked := is_some (i_blocked i) in
+  let pend := is_some (i_pend i) in
+  (i_in_read i || blocked) &&
+  (negb blocked || pend || up_some (i_up i)) &&
+  (negb pend || i_in_write i) &&
+  (negb (is_umsg (i_up i)) || i_in_write i) &&
+  (blocked || is_nil (i_buf i)) &&
+  (negb (i_ds_ext i) || blocked) &&
+  (negb blocked || negb (i_in_read i)) &&
+  (negb blocked || i_ds_ext i) &&
+  (negb pend || negb idm0).
 
-Lemma parse_handshake_meta_id : forall ms c sp h c' sp',
-  parse_handshake ms c sp h = inl (c', sp') ->
-  c_id_meta c' = match hs_meta h with Some z => u8 z | None => c_id_meta c end /\
-  c_rs_meta c' = match hs_meta h with Some _ => true | None => c_rs_meta c end.
-Proof.
-  intros ms c sp h c' sp' H. unfold parse_handshake in H.
-  destruct (hs_pex h) as [zx|]; destruct (hs_meta h) as [zm|]; cbn in H;
-    repeat match type of H with context [if ?b then _ else _] => destruct b end;
-    inversion H; subst; cbn; split; reflexivity.
-Qed.
+Definition okc (c : conn) : bool := okio (x_id_meta (c_x c) =? 0) (c_io c).
 
-Lemma parse_handshake_pex_id : forall ms c sp h c' sp',
-  parse_handshake ms c sp h = inl (c', sp') ->
-  c_id_pex c' = match hs_pex h with Some z => u8 z | None => c_id_pex c end.
+(* what holds while read_message() runs: nothing waits, IDLE, in the read set *)
+Definition pre_parse (idm0 : bool) (i : iostate) : bool :=
+  negb (is_some (i_blocked i)) && i_in_read i && negb (i_ds_ext i) &&
+  (negb (is_some (i_pend i)) || i_in_write i) &&
+  (negb (is_umsg (i_up i)) || i_in_write i) &&
+  (negb (is_some (i_pend i)) || negb idm0).
+
+Ltac io_cases i :=
+  destruct i as [mk rd wr ds pend blk buf sock up ka wb idl];
+  destruct rd, wr, ds, pend, blk, buf, up as [|[?|]]; cbn in *;
+  try reflexivity; try discriminate; try tauto; try congruence.
+
+Lemma pre_parse_nil : forall b i, pre_parse b i = true -> okio b (set_i_buf i []) = true.
+Proof. intros b i H. destruct b; io_cases i. Qed.
+
+Lemma pre_parse_poke : forall b i, pre_parse b i = true -> pre_parse b (poke_write i) = true.
+Proof. intros b i H. destruct b; io_cases i. Qed.
+
+Lemma pre_parse_buf_irrelevant : forall b i l, pre_parse b (set_i_buf i l) = pre_parse b i.
+Proof. intros. destruct i; reflexivity. Qed.
+
+(* parse_handshake and the pending reply *)
+Lemma parse_handshake_meta : forall fx ms x pend sp h x' pend' sp' bad,
+  parse_handshake fx ms x pend sp h = (x', pend', sp', bad) ->
+  x_id_meta x' = match hs_meta h with Some z => clamp_id z | None => x_id_meta x end /\
+  pend' = match hs_meta h with
+          | Some z => if negb (clamp_id z =? x_id_meta x) && (clamp_id z =? 0) then None else pend
+          | None => pend
+          end.
 Proof.
-  intros ms c sp h c' sp' H. unfold parse_handshake in H.
+  intros fx ms x pend sp h x' pend' sp' bad H. unfold parse_handshake in H.
   destruct (hs_pex h) as [zx|]; destruct (hs_meta h) as [zm|]; cbn in H.
-  1,2: destruct (u8 zx =? c_id_pex c) eqn:E; cbn in H;
-       repeat match type of H with context [if ?b then _ else _] => destruct b end;
-       inversion H; subst; cbn; try reflexivity; apply N.eqb_eq in E; symmetry; exact E.
-  all: repeat match type of H with context [if ?b then _ else _] => destruct b end;
-       inversion H; subst; cbn; reflexivity.
+  1,2: destruct (clamp_id zx =? x_id_pex x).
+  all: inversion H; subst; clear H; cbn; split; reflexivity.
 Qed.
 
-(* an id above 255 is NOT what ends up in the map: the truncation is real *)
-Example id_truncated : u8 257 = 1 /\ u8 256 = 0 /\ u8 (-1) = 255.
-Proof. vm_compute. repeat split; reflexivity. Qed.
-
-(* ------------------------------------------------------------------------------------------ *)
-(* ut_pex messages are never written with id 0, and only the tick writes them *)
-
-Lemma drain_mask_pex : forall f ini del c c' o,
-  drain_mask f ini del c = (c', o) ->
-  forall i id a r, In (OPex i id a r) o -> id <> 0 /\ id = c_id_pex c /\ i = c_peer c /\ c_rs_pex c = true.
+Lemma parse_handshake_pend : forall fx ms x pend sp h x' pend' sp' bad,
+  parse_handshake fx ms x pend sp h = (x', pend', sp', bad) ->
+  (is_some pend = true -> (x_id_meta x =? 0) = false) ->
+  (pend' = pend \/ pend' = None) /\ (is_some pend' = true -> (x_id_meta x' =? 0) = false).
 Proof.
-  induction f as [|f IH]; intros ini del c c' o H i id a r Hin.
-  - cbn in H. inversion H; subst. destruct Hin.
-  - cbn [drain_mask] in H.
-    destruct (mask_is0 (c_mask c)). { inversion H; subst. destruct Hin. }
-    destruct (c_rs_pex c) eqn:Ers; cbn [negb] in H. 2: { inversion H; subst. destruct Hin. }
-    destruct (k_en (c_mask c) || k_dis (c_mask c)).
-    + destruct (drain_mask f ini del (set_mask c (mkMask (k_do (c_mask c)) false false))) as [c2 o2] eqn:E.
-      inversion H; subst. destruct Hin as [Hin|Hin]; [discriminate Hin|].
-      specialize (IH _ _ _ _ _ E _ _ _ _ Hin). cbn in IH. destruct IH as (A & B & C & D). auto.
-    + destruct (k_do (c_mask c) && negb (c_id_pex c =? 0)) eqn:Ed.
-      * apply andb_true_iff in Ed. destruct Ed as [_ Ed]. apply negb_true_iff, N.eqb_neq in Ed.
-        destruct (if c_init_pex c then ini else del) as [[a0 r0]|]; inversion H; subst.
-        -- destruct Hin as [Hin|[]]. inversion Hin; subst. auto.
-        -- destruct Hin.
-      * inversion H; subst. destruct Hin.
+  intros fx ms x pend sp h x' pend' sp' bad H Hp.
+  destruct (parse_handshake_meta _ _ _ _ _ _ _ _ _ _ H) as [A B]. rewrite A. subst pend'.
+  destruct (hs_meta h) as [zm|].
+  - destruct (clamp_id zm =? x_id_meta x) eqn:E1; destruct (clamp_id zm =? 0) eqn:E2; cbn.
+    + split; [left; reflexivity|]. intro Q. specialize (Hp Q).
+      apply N.eqb_eq in E1. apply N.eqb_eq in E2. rewrite E1 in E2. rewrite E2 in Hp. discriminate Hp.
+    + split; [left; reflexivity|]. intros _. reflexivity.
+    + split; [right; reflexivity|]. intro Q. discriminate Q.
+    + split; [left; reflexivity|]. intros _. reflexivity.
+  - split; [left; reflexivity|exact Hp].
 Qed.
 
-Lemma drain_all_pex : forall ini del l l' o,
-  drain_all ini del l = (l', o) ->
-  forall i id a r, In (OPex i id a r) o -> id <> 0 /\ exists c, In c l /\ c_peer c = i /\ c_id_pex c = id /\ c_rs_pex c = true.
+Lemma pre_parse_hs : forall b b' i pend',
+  pre_parse b i = true -> (pend' = i_pend i \/ pend' = None) ->
+  (is_some pend' = true -> b' = false) ->
+  pre_parse b' (poke_write (set_i_pend i pend')) = true.
 Proof.
-  induction l as [|c l IH]; intros l' o H i id a r Hin.
-  - cbn in H. inversion H; subst. destruct Hin.
-  - cbn [drain_all] in H. destruct (drain_mask 3 ini del c) as [c1 o1] eqn:E1.
-    destruct (drain_all ini del l) as [l2 o2] eqn:E2. inversion H; subst.
-    apply in_app_or in Hin. destruct Hin as [Hin|Hin].
-    + destruct (drain_mask_pex _ _ _ _ _ _ E1 _ _ _ _ Hin) as (A & B & C & D).
-      split; [exact A|]. exists c. subst. repeat split; auto. left; reflexivity.
-    + destruct (IH _ _ eq_refl _ _ _ _ Hin) as (A & c0 & B & C & D & F).
-      split; [exact A|]. exists c0. repeat split; auto. right; exact B.
+  intros b b' i pend' H [E|E] Hb; subst pend'.
+  - assert (set_i_pend i (i_pend i) = i) as -> by (destruct i; reflexivity).
+    destruct b'; [|destruct b; io_cases i].
+    destruct i as [mk rd wr ds pend blk buf sock up ka wb idl]. destruct pend; cbn in Hb; [specialize (Hb eq_refl); discriminate Hb|].
+    destruct b; destruct rd, wr, ds, blk, buf, up as [|[?|]]; cbn in *; try reflexivity; try discriminate.
+  - destruct b, b'; io_cases i.
 Qed.
 
-Lemma ka_loop_no_pex : forall f sp l l' sp' o,
-  ka_loop f sp l = (l', sp', o) -> forall i id a r, ~ In (OPex i id a r) o.
+Lemma try_request_some : forall meta x i p i',
+  try_request meta x i p = Some i' ->
+  pre_parse (x_id_meta x =? 0) i = true -> pre_parse (x_id_meta x =? 0) (poke_write i') = true.
 Proof.
-  induction f as [|f IH]; intros sp l l' sp' o H i id a r Hin.
-  - cbn in H. inversion H; subst. destruct Hin.
-  - cbn [ka_loop] in H. destruct l as [|c rr]. { inversion H; subst. destruct Hin. }
-    destruct (timeout_ticks <? c_idle c + 1).
-    + match type of H with context [ka_loop f ?a ?b] => destruct (ka_loop f a b) as [[l2 sp2] o2] eqn:E end.
-      inversion H; subst. destruct Hin as [Hin|Hin]; [discriminate Hin|]. eapply IH; eauto.
-    + destruct (ka_loop f sp rr) as [[l2 sp2] o2] eqn:E. inversion H; subst. eapply IH; eauto.
+  intros meta x i p i' H Hp. unfold try_request in H.
+  destruct (x_id_meta x =? 0) eqn:E.
+  - inversion H; subst. apply pre_parse_poke. exact Hp.
+  - destruct (i_pend i) eqn:Ep; [discriminate H|]. inversion H; subst; clear H.
+    io_cases i.
 Qed.
 
-Theorem pex_id_nonzero : forall d o d' outs i id a r,
-  step d o = SOk d' outs -> In (OPex i id a r) outs -> id <> 0 /\ o = Tick.
+Lemma try_request_none : forall meta x i p,
+  try_request meta x i p = None -> is_some (i_pend i) = true.
 Proof.
-  intros d o d' outs i id a r H Hin. destruct o as [j|j ms| |j]; cbn [step] in H.
-  - destruct (existsb (N.eqb j) (d_used d)); inversion H; subst; cbn in Hin; try tauto.
-    destruct Hin as [Hin|[]]; discriminate Hin.
-  - destruct (find_conn j (d_conns d)) as [c|]; [|inversion H; subst; destruct Hin].
-    destruct (negb (c_in_read c)); [inversion H; subst; destruct Hin|].
-    destruct (run_batch (d_meta d) (set_idle c 0) (d_size_pex d) None ms) as [c' sp pend|c' sp];
-      inversion H; subst.
-    + destruct pend; cbn in Hin; try tauto. destruct Hin as [Hin|[]]; discriminate Hin.
-    + destruct Hin as [Hin|[]]; discriminate Hin.
-  - split; [|reflexivity]. unfold tick in H.
-    match type of H with context [match ?r with DpeOk _ => _ | DpeInternalError => _ end] => destruct r as [d1|] end; [|discriminate H].
-    destruct (ka_loop (length (d_conns d1)) (d_size_pex d1) (d_conns d1)) as [[l2 sp2] o2] eqn:E2.
-    destruct (drain_all (d_initial d1) (d_delta d1) l2) as [l3 o3] eqn:E3.
-    inversion H; subst. apply in_app_or in Hin. destruct Hin as [Hin|Hin].
-    + exfalso. eapply ka_loop_no_pex; eauto.
-    + destruct (drain_all_pex _ _ _ _ _ E3 _ _ _ _ Hin) as [A _]. exact A.
-  - destruct (find_conn j (d_conns d)) as [c|]; [|inversion H; subst; destruct Hin].
-    destruct (negb (c_in_read c)); inversion H; subst; destruct Hin.
+  intros meta x i p H. unfold try_request in H. destruct (x_id_meta x =? 0); [discriminate H|].
+  destruct (i_pend i); [reflexivity|discriminate H].
 Qed.
 
-(* ------------------------------------------------------------------------------------------ *)
-(* ut_metadata replies: the id written is the map entry after the whole batch was parsed, and
-   the reply is send_metadata_piece of the torrent's info bytes *)
+Lemma blocked_ok : forall b i p rest,
+  pre_parse b i = true -> is_some (i_pend i) = true ->
+  okio b (set_i_buf (set_i_ds_ext (set_i_in_read (set_i_blocked i (Some p)) false) true) rest) = true.
+Proof. intros b i p rest H Hp. destruct b; io_cases i. Qed.
 
-Lemma run_batch_pend : forall meta ms c sp pend c' sp' r,
-  run_batch meta c sp pend ms = BDone c' sp' (Some r) ->
-  pend = Some r \/ exists p, r = send_metadata_piece false meta p.
+Lemma parse_msgs_ok : forall fx meta ms c sp c' sp',
+  pre_parse (x_id_meta (c_x c) =? 0) (c_io c) = true ->
+  parse_msgs fx meta c sp ms = (c', sp', false) -> okc c' = true.
 Proof.
-  intros meta ms. induction ms as [|m rest IH]; intros c sp pend c' sp' r H.
-  - cbn in H. inversion H; subst. left; reflexivity.
-  - cbn [run_batch] in H. destruct m as [h|e t p].
-    + destruct (parse_handshake (N.of_nat (length meta)) c sp h) as [[c1 sp1]|[c1 sp1]]; [|discriminate H].
-      eapply IH; eauto.
-    + destruct (3 <=? e); [discriminate H|].
-      destruct (e =? 0).
-      { destruct (parse_handshake (N.of_nat (length meta)) c sp empty_hs) as [[c1 sp1]|[c1 sp1]]; [|discriminate H].
-        eapply IH; eauto. }
-      destruct (e =? 1); [eapply IH; eauto|].
-      destruct (negb (c_le_meta c)); [eapply IH; eauto|].
-      destruct (t =? 0)%Z; [|eapply IH; eauto].
-      destruct pend as [r0|].
-      * inversion H; subst. left; reflexivity.
-      * destruct (IH _ _ _ _ _ _ H) as [E|E]; [|right; exact E].
-        inversion E; subst. right. eexists; reflexivity.
+  intros fx meta ms. induction ms as [|[m sz] rest IH]; intros c sp c' sp' Hp H.
+  - cbn in H. inversion H; subst. unfold okc. cbn. apply pre_parse_nil. exact Hp.
+  - cbn [parse_msgs] in H.
+    assert (HS : forall h, (let '(x', pend', sp'0, bad) := parse_handshake fx (N.of_nat (length meta)) (c_x c) (i_pend (c_io c)) sp h in
+                 let c'0 := mkConn (c_peer c) x' (set_i_pend (c_io c) pend') in
+                 if bad then (with_io c'0 (set_i_buf (c_io c'0) rest), sp'0, true)
+                 else parse_msgs fx meta (with_io c'0 (poke_write (c_io c'0))) sp'0 rest) = (c', sp', false) -> okc c' = true).
+    { intros h Hh.
+      destruct (parse_handshake fx (N.of_nat (length meta)) (c_x c) (i_pend (c_io c)) sp h) as [[[x' pend'] sp1] bad] eqn:E.
+      destruct bad; [inversion Hh|].
+      assert (Hq : is_some (i_pend (c_io c)) = true -> (x_id_meta (c_x c) =? 0) = false).
+      { intro Q. destruct (c_io c) as [mk rd wr ds pend blk buf sock up ka wb idl]. cbn in *.
+        destruct pend; [|discriminate Q]. destruct (x_id_meta (c_x c) =? 0); [|reflexivity].
+        destruct blk, rd, ds, wr; cbn in Hp; try discriminate Hp. destruct up as [|[?|]]; cbn in Hp; discriminate Hp. }
+      destruct (parse_handshake_pend _ _ _ _ _ _ _ _ _ _ E Hq) as [A B].
+      eapply IH; [|exact Hh]. cbn. eapply pre_parse_hs; eauto. }
+    destruct m as [h|e t p|].
+    + apply HS with (h := h). exact H.
+    + destruct (3 <=? e); [inversion H|].
+      destruct (e =? 0); [apply HS with (h := empty_hs); exact H|].
+      destruct (e =? 1). { eapply IH; [|exact H]. cbn. apply pre_parse_poke. exact Hp. }
+      destruct (negb (x_le_meta (c_x c))). { eapply IH; [|exact H]. cbn. apply pre_parse_poke. exact Hp. }
+      destruct (t =? 0)%Z.
+      * destruct (try_request meta (c_x c) (c_io c) p) as [i'|] eqn:E.
+        -- eapply IH; [|exact H]. cbn. eapply try_request_some; eauto.
+        -- inversion H; subst. unfold okc. cbn. apply blocked_ok; [exact Hp|]. eapply try_request_none; eauto.
+      * eapply IH; [|exact H]. cbn. apply pre_parse_poke. exact Hp.
+    + eapply IH; [|exact H]. exact Hp.
 Qed.
 
-Theorem meta_reply_is_slice_of_info : forall d i ms d' outs j id r,
-  step d (Recv i ms) = SOk d' outs -> In (OMeta j id r) outs ->
-  j = i /\ exists p, r = send_metadata_piece false (d_meta d) p.
+(* ---- event_read keeps the invariant *)
+Lemma read_event_ok : forall fx meta c sp c' sp' o,
+  okc c = true -> i_in_read (c_io c) = true ->
+  read_event fx meta c sp = COk c' sp' o -> okc c' = true.
 Proof.
-  intros d i ms d' outs j id r H Hin. cbn [step] in H.
-  destruct (find_conn i (d_conns d)) as [c|]; [|inversion H; subst; destruct Hin].
-  destruct (negb (c_in_read c)); [inversion H; subst; destruct Hin|].
-  destruct (run_batch (d_meta d) (set_idle c 0) (d_size_pex d) None ms) as [c' sp pend|c' sp] eqn:E;
-    inversion H; subst.
-  - destruct pend as [r0|]; [|destruct Hin]. destruct Hin as [Hin|[]]. inversion Hin; subst.
-    split; [reflexivity|]. destruct (run_batch_pend _ _ _ _ _ _ _ _ E) as [X|X]; [discriminate X|exact X].
-  - destruct Hin as [Hin|[]]; discriminate Hin.
+  intros fx meta c sp c' sp' o Hok Hr H. unfold read_event in H.
+  set (i0 := set_i_idle (c_io c) 0) in *.
+  assert (Hok0 : okio (x_id_meta (c_x c) =? 0) i0 = true).
+  { unfold okc in Hok. subst i0. destruct (c_io c); exact Hok. }
+  assert (Hr0 : i_in_read i0 = true) by (subst i0; destruct (c_io c); exact Hr).
+  clearbody i0.
+  destruct (i_ds_ext i0) eqn:Eds.
+  - destruct (i_blocked i0) as [p|] eqn:Eb.
+    + destruct (try_request meta (c_x c) i0 p) as [i'|] eqn:Et.
+      * (* processed now *)
+        match type of H with context [if ?b then _ else _] => destruct b end; [discriminate H|].
+        match type of H with context [parse_msgs ?a ?b ?cc ?d ?e] => destruct (parse_msgs a b cc d e) as [[c1 sp1] cl] eqn:Ep end.
+        destruct cl; inversion H; subst. eapply parse_msgs_ok; [|exact Ep]. cbn.
+        unfold try_request in Et. destruct (x_id_meta (c_x c) =? 0) eqn:Ez.
+        -- inversion Et; subst. io_cases i'.
+        -- destruct (i_pend i0) eqn:Epd; [discriminate Et|]. inversion Et; subst. io_cases i0.
+      * inversion H; subst. unfold okc. cbn. pose proof (try_request_none _ _ _ _ Et) as Q.
+        destruct (x_id_meta (c_x c) =? 0); io_cases i0.
+    + (* READ_EXTENSION without a waiting message cannot happen under the invariant *)
+      exfalso. destruct (x_id_meta (c_x c) =? 0); io_cases i0.
+  - match type of H with context [if ?b then _ else _] => destruct b end; [discriminate H|].
+    match type of H with context [parse_msgs ?a ?b ?cc ?d ?e] => destruct (parse_msgs a b cc d e) as [[c1 sp1] cl] eqn:Ep end.
+    destruct cl; inversion H; subst. eapply parse_msgs_ok; [|exact Ep]. cbn.
+    destruct (x_id_meta (c_x c) =? 0); io_cases i0.
 Qed.
-
-(* ------------------------------------------------------------------------------------------ *)
-(* REFUTATIONS on the faithful model (computed witnesses; replayed on the real code by the
-   hand list of gen/c20.py) *)
-
-Definition is_meta_id0 (o : out) : bool :=
-  match o with OMeta _ id _ => id =? 0 | _ => false end.
-
-(* ext_ids_advertised: a ut_metadata message is written with id 0 to a peer that never
-   advertised ut_metadata (witness 1) or that advertised id 0 = disabled (witness 2) *)
-Theorem ext_ids_advertised_refuted :
-  existsb is_meta_id0 (outs_of (start false small_meta 40) [Connect 0; Recv 0 [MExt 2 0 0]]) = true /\
-  existsb is_meta_id0 (outs_of (start false small_meta 40)
-     [Connect 0; Recv 0 [MHandshake (hs_of (Some 0%Z) (Some 0%Z) None)]; Recv 0 [MExt 2 0 0]]) = true.
-Proof. vm_compute. split; reflexivity. Qed.
-
-(* ... and an advertised id that does not fit 8 bits is silently replaced by another id *)
-Theorem ext_ids_truncated_witness :
-  outs_of (start false small_meta 40)
-     [Connect 0; Recv 0 [MHandshake (hs_of None (Some 257%Z) None)]; Recv 0 [MExt 2 0 0]]
-  = [OHs 0 true 5; OMeta 0 1 (MData 0 5 small_meta)].
-Proof. vm_compute. reflexivity. Qed.
-
-(* pex_exact: peer 0 (listen port 7000) leaves; the list becomes empty, the initial buffer is not
-   regenerated; peer 2 enables ut_pex later and is told that 127.0.0.2:7000 is connected *)
-Definition pex_witness : list op :=
-  [Connect 0; Recv 0 [MHandshake (hs_of (Some 1%Z) (Some 3%Z) (Some 7000%Z))]; Tick;
-   Close 0; Tick; Connect 2; Recv 2 [MHandshake (hs_of (Some 9%Z) None None)]; Tick].
-
-Definition stale_added (d : dstate) (o : out) : bool :=
-  match o with
-  | OPex _ _ added _ => existsb (fun e => negb (existsb (fun c => (c_peer c =? fst e) && (c_listen c =? snd e)) (d_conns d))) added
-  | _ => false
-  end.
-
-Theorem pex_exact_refuted :
-  existsb (stale_added (final_state (start false small_meta 40) pex_witness))
-          (outs_of (start false small_meta 40) pex_witness) = true.
-Proof. vm_compute. reflexivity. Qed.
-
-(* reads_resume: two ut_metadata requests in one segment: the second is dropped and the
-   connection leaves the read set for good with nothing pending *)
-Definition deaf (d : dstate) : bool := existsb (fun c => negb (c_in_read c)) (d_conns d).
-
-Theorem reads_resume_refuted :
-  deaf (final_state (start true small_meta 40)
-          [Connect 0; Recv 0 [MHandshake (hs_of None (Some 3%Z) None)]; Recv 0 [MExt 2 0 0; MExt 2 0 0]]) = true /\
-  (* later requests are never answered, and the peer is dropped by the 240 s read timeout *)
-  outs_of (start true small_meta 40)
-          [Connect 0; Recv 0 [MHandshake (hs_of None (Some 3%Z) None)]; Recv 0 [MExt 2 0 0; MExt 2 0 0];
-           Recv 0 [MExt 2 0 0]; Tick; Tick; Tick]
-  = [OHs 0 false 5; OMeta 0 3 (MData 0 5 [100; 49; 58; 120; 101]); OClosed 0].
-Proof. vm_compute. split; reflexivity. Qed.
-
-(* a connection only leaves the read set through that path: a request met a pending reply *)
-Lemma run_batch_in_read : forall meta ms c sp pend c' sp' pend',
-  run_batch meta c sp pend ms = BDone c' sp' pend' -> c_in_read c = true ->
-  c_in_read c' = true \/ (exists r, pend' = Some r).
-Proof.
-  intros meta ms. induction ms as [|m rest IH]; intros c sp pend c' sp' pend' H Hr.
-  - cbn in H. inversion H; subst. left; exact Hr.
-  - cbn [run_batch] in H.
-    assert (PH : forall h c1 sp1, parse_handshake (N.of_nat (length meta)) c sp h = inl (c1, sp1) -> c_in_read c1 = true).
-    { intros h c1 sp1 E. unfold parse_handshake in E.
-      destruct (hs_pex h); destruct (hs_meta h); cbn in E;
-        repeat match type of E with context [if ?b then _ else _] => destruct b end;
-        inversion E; subst; cbn; exact Hr. }
-    destruct m as [h|e t p].
-    + destruct (parse_handshake (N.of_nat (length meta)) c sp h) as [[c1 sp1]|[c1 sp1]] eqn:E; [|discriminate H].
-      eapply IH; eauto.
-    + destruct (3 <=? e); [discriminate H|].
-      destruct (e =? 0).
-      { destruct (parse_handshake (N.of_nat (length meta)) c sp empty_hs) as [[c1 sp1]|[c1 sp1]] eqn:E; [|discriminate H].
-        eapply IH; eauto. }
-      destruct (e =? 1); [eapply IH; eauto|].
-      destruct (negb (c_le_meta c)); [eapply IH; eauto|].
-      destruct (t =? 0)%Z; [|eapply IH; eauto].
-      destruct pend as [r0|].
-      * inversion H; subst. right. eexists; reflexivity.
-      * eapply IH; eauto.
-Qed.
-
-(* one request at a time never suspends reads (what a patient peer sees) *)
-Theorem single_request_keeps_reading : forall meta c sp e t p c' sp' pend',
-  run_batch meta c sp None [MExt e t p] = BDone c' sp' pend' -> c_in_read c = true -> c_in_read c' = true.
-Proof.
-  intros meta c sp e t p c' sp' pend' H Hr. cbn [run_batch] in H.
-  destruct (3 <=? e); [discriminate H|].
-  destruct (e =? 0).
-  { destruct (parse_handshake (N.of_nat (length meta)) c sp empty_hs) as [[c1 sp1]|[c1 sp1]] eqn:E; [|discriminate H].
-    inversion H; subst. unfold parse_handshake in E. cbn in E.
-    repeat match type of E with context [if ?b then _ else _] => destruct b end;
-      inversion E; subst; cbn; exact Hr. }
-  destruct (e =? 1); [inversion H; subst; exact Hr|].
-  destruct (negb (c_le_meta c)); [inversion H; subst; exact Hr|].
-  destruct (t =? 0)%Z; inversion H; subst; exact Hr.
-Qed.
-
-(* non-vacuity *)
-Example ex_step_pex : exists d o d' outs i id a r, step d o = SOk d' outs /\ In (OPex i id a r) outs.
-Proof.
-  exists (final_state (start false small_meta 40) [Connect 0; Recv 0 [MHandshake (hs_of (Some 1%Z) (Some 3%Z) (Some 7000%Z))]]), Tick.
-  eexists. eexists. exists 0, 1, [(0, 7000)], []. split; [vm_compute; reflexivity|]. left. reflexivity.
-Qed.
-Example ex_meta_reply : exists d i ms d' outs j id r, step d (Recv i ms) = SOk d' outs /\ In (OMeta j id r) outs.
-Proof.
-  exists (final_state (start false small_meta 40) [Connect 0]), 0, [MExt 2 0%Z 0%Z].
-  eexists. eexists. exists 0, 0, (MData 0 5 small_meta). split; [vm_compute; reflexivity|]. left. reflexivity.
-Qed.
-Example ex_parse_handshake : exists ms c sp h c' sp', parse_handshake ms c sp h = inl (c', sp').
-Proof. exists 5, (default_conn 0 true), 1, (hs_of (Some 1%Z) (Some 300%Z) None). eexists. eexists. vm_compute. reflexivity. Qed.
